@@ -1039,7 +1039,7 @@ def rule_t11(prog, rep, rid='T11'):
             fields = {x.get('name') for x in walk(g.body) if x.get('kind') == 'MemberExpr' and (x.get('_field') or ('',))[0] == NODE}
             recargs = {canon(a).split('->')[-1] for y in walk(g.body) if y.get('kind') == 'CallExpr' and prog.callee_name(y) == g.name
                        for a in children(y)[1:]}
-            if {'left', 'right'} <= fields and {'left', 'right'} <= recargs:
+            if {'left', 'right'} <= fields and {'left', 'right'} <= recargs and _purges_every_node(prog, g):
                 purgers.add(g.name)
     rep.notes['mark_purging_functions'] = sorted(purgers)
     for f in sorted(funcs, key=lambda x: x.line or 0):
@@ -1095,6 +1095,48 @@ def rule_t11(prog, rep, rid='T11'):
                               '%s advances the %d-bit traversal id %s, but %s: after %d walk starts the id equals marks left in the nodes '
                               '(new nodes carry 0, abandoned walks leave theirs) and those nodes are skipped by the walk'
                               % (f.name, width, canon(fld), why, 2 ** width))
+
+
+def _purges_every_node(prog, g):
+    """every path through the purger that does not leave because the node pointer is NULL clears the mark and recurses into both
+    subtrees: no other early exit (e.g. "already 0, skip the subtree" - the children may still carry marks)"""
+    cfg = g.cfg
+    pn = g.params[0].get('name') if g.params else None
+
+    def has(m, what):
+        if not isinstance(m.ast, dict) or m.kind == 'macro':
+            return False
+        for y in walk(m.ast):
+            if what == 'mark' and y.get('kind') == 'BinaryOperator' and y.get('opcode') == '=' and \
+                    strip(children(y)[0]).get('kind') == 'MemberExpr' and strip(children(y)[0]).get('name') == 'tid' and int_value(children(y)[1]) == 0:
+                return True
+            if what in ('left', 'right') and y.get('kind') == 'CallExpr' and prog.callee_name(y) == g.name and \
+                    any(canon(a).endswith('->' + what) for a in children(y)[1:]):
+                return True
+        return False
+    # forward search over (node, facts done); the NULL-pointer exit is exempt
+    seen, work = set(), [(cfg.entry, frozenset())]
+    while work:
+        m, done = work.pop()
+        if (m.id, done) in seen:
+            continue
+        seen.add((m.id, done))
+        d2 = set(done)
+        for w in ('mark', 'left', 'right'):
+            if has(m, w):
+                d2.add(w)
+        d2 = frozenset(d2)
+        for (s2, lab) in m.succs:
+            if m.kind == 'cond' and isinstance(m.ast, dict):
+                t = cond_null_test(m.ast)
+                if t and t[0] == pn and ((lab == 'T') == t[1]):
+                    continue                  # obj == NULL: nothing to purge below
+            if s2 is cfg.exit:
+                if d2 != frozenset(('mark', 'left', 'right')):
+                    return False
+                continue
+            work.append((s2, d2))
+    return True
 
 
 def _reach_node(cfg, a, b):
